@@ -1105,3 +1105,105 @@ def mapping_form(v, path=None):
                     return (dom[0] if dom[1] is None else lp.ctx, el,
                             sets[0].key, sets[0].value)
     return None
+
+
+def wrapper_passthrough_ps(report, rid, db, S=None):
+    """The cipher wrappers' I/O methods, read off their path summaries: on
+    the single path, exactly one cipher `update` of the right direction and
+    exactly one call of the wrapped endpoint, no other effect; inbound, the
+    endpoint is asked for the caller's length and its result goes straight
+    into update, whose result is returned; outbound, update of the caller's
+    data goes straight into the endpoint's send.  No buffering: an empty read
+    stays empty, nothing is held back."""
+    from .pathsum import struct, show, sym
+    if S is None:
+        from .callgraph import CallGraph
+        S = summariser(db, CallGraph(db), implicit_raises=False)
+    want = {
+        'EncryptedFileObjectWrapper': {'read': ('decryptor', 'read', 'in')},
+        'EncryptedSocketWrapper': {'recv': ('decryptor', 'recv', 'in'),
+                                   'send': ('encryptor', 'send', 'out')},
+    }
+    n = 0
+    for cname, meths in sorted(want.items()):
+        ci = db.get_class(ENC, cname)
+        init = db.find_method(ci, '__init__')
+        if init is None or init.cls is None:
+            raise AnalysisError('%s.__init__ vanished' % cname)
+        me = ('obj', 0, ci.qualname, ci)
+        ips = [p for p in S.run(init, self_term=me) if not p.raises]
+        if len(ips) != 1:
+            raise AnalysisError('%s.__init__: expected one path, found %d'
+                                % (cname, len(ips)), init.node,
+                                rel(init.path))
+        heap = dict(ips[0].heap)
+        params = {struct(sym(x)): x for x in init.params[1:]}
+        fld = {}        # field -> constructor parameter
+        for (b, a), v in heap.items():
+            if struct(b) == struct(me) and struct(v) in params:
+                fld[a] = params[struct(v)]
+        endpoint = init.params[1] if len(init.params) > 1 else None
+        for mname, (cipher_param, under_meth, direction) in sorted(
+                meths.items()):
+            fi = db.find_method(ci, mname)
+            if fi is None:
+                raise AnalysisError('%s.%s vanished' % (cname, mname))
+            n += 1
+            item = 'wrapper:%s.%s' % (cname, mname)
+
+            def bad(why, fi=fi, item=item):
+                report.violation(rid, item, fi.path, fi.node, fi.qualname,
+                                 why)
+            paths = S.run(fi, self_term=me, heap=heap)
+            live = [p for p in paths if not p.raises]
+            if len(paths) != 1 or len(live) != 1:
+                bad('wrapper method is not a single pass-through (%d paths:'
+                    ' buffering or branching)' % len(paths))
+                continue
+            p = live[0]
+            evs = p.flat(('call', 'store', 'setitem', 'delitem', 'loop'))
+            calls = [e for e in evs if e.kind == 'call']
+
+            def field_of(e):
+                f = e.fn
+                if f[0] == 'attr' and struct(f[1]) in params:
+                    return params[struct(f[1])], f[2]
+                if f[0] == 'fn' and len(f) > 2 and f[2] is not None and \
+                        struct(f[2]) in params:
+                    return params[struct(f[2])], f[1].name
+                return None, None
+            upd = [e for e in calls if field_of(e)[1] == 'update']
+            und = [e for e in calls if field_of(e)[0] == endpoint]
+            if len(evs) != 2 or len(upd) != 1 or len(und) != 1:
+                bad('expected exactly one cipher update around one %s and '
+                    'no other effect; found %s' % (under_meth, [
+                        repr(e)[:60] for e in evs]))
+                continue
+            u, d = upd[0], und[0]
+            if field_of(u)[0] != cipher_param or field_of(d)[1] != \
+                    under_meth:
+                bad('uses %s.update around .%s(); expected the %s around '
+                    '.%s()' % (field_of(u)[0], field_of(d)[1], cipher_param,
+                               under_meth))
+                continue
+            caller = [struct(sym(x)) for x in fi.params[1:]]
+            if direction == 'in':
+                ok = [struct(a) for a in d.args] == caller and not d.kwargs \
+                    and len(u.args) == 1 and u.args[0] == d.res and \
+                    not u.kwargs and p.returns and p.value == u.res and \
+                    evs.index(d) < evs.index(u)
+                why = 'the underlying %s is not asked for exactly the ' \
+                      'caller\'s length, or its result is not passed ' \
+                      'straight to update and returned' % under_meth
+            else:
+                ok = [struct(a) for a in u.args] == caller and not u.kwargs \
+                    and len(d.args) == 1 and d.args[0] == u.res and \
+                    not d.kwargs and evs.index(u) < evs.index(d)
+                why = 'the ciphertext of exactly the caller\'s data is ' \
+                      'not passed straight to the underlying send'
+            if ok:
+                report.ok(rid, '%s.%s: %s' % (cname, mname, ' ; '.join(
+                    repr(e) for e in evs)))
+            else:
+                bad(why)
+    report.floor('cipher wrapper I/O methods', n, 3)
